@@ -109,7 +109,11 @@ class P_pdffit(StructureParser):
                     stru.lattice = Lattice(*latpars)
                 elif words[0] == "dcell":
                     l1 = line.replace(",", " ")
-                    stru.pdffit["dcell"] = [float(w) for w in l1.split()[1:7]]
+                    dcell = [float(w) for w in l1.split()[1:7]]
+                    if len(dcell) != 6:
+                        emsg = "%d: dcell record must list 6 numbers" % p_nl
+                        raise StructureFormatError(emsg)
+                    stru.pdffit["dcell"] = dcell
                 elif words[0] == "ncell":
                     l1 = line.replace(",", " ")
                     stru.pdffit["ncell"] = [int(w) for w in l1.split()[1:5]]
